@@ -186,7 +186,7 @@ class World:
             return v.item()
         return v
 
-    def clone_fn(self, f):
+    def clone_fn(self, f, clscell=None):
         k = ("fn", id(f))
         if k in self.memo:
             return self.memo[k][1]
@@ -194,6 +194,9 @@ class World:
         if g is None:
             return f
         closure = f.__closure__
+        if closure and clscell is not None and "__class__" in f.__code__.co_freevars:
+            i = f.__code__.co_freevars.index("__class__")
+            closure = tuple(clscell if j == i else c for j, c in enumerate(closure))
         new = types.FunctionType(f.__code__, g, f.__name__, f.__defaults__, closure)
         new.__kwdefaults__ = f.__kwdefaults__
         new.__qualname__ = f.__qualname__
@@ -205,26 +208,28 @@ class World:
         if any((b.__module__ or "").startswith("xarray") for b in c.__mro__[1:]):
             return self.clone_xr_subclass(c)
         d = {}
+        cell = types.CellType()
         for k, v in c.__dict__.items():
             if k in ("__dict__", "__weakref__") or isinstance(v, types.MemberDescriptorType):
                 continue
-            d[k] = self._clone_member(v)
+            d[k] = self._clone_member(v, cell)
         bases = tuple(self.map(b) if _is_ux(b) else b for b in c.__bases__)
         new = type(c.__name__, bases, d)
         new.__module__ = c.__module__
+        cell.cell_contents = new
         return new
 
-    def _clone_member(self, v):
+    def _clone_member(self, v, cell=None):
         if isinstance(v, types.FunctionType):
-            return self.clone_fn(v)
+            return self.clone_fn(v, cell)
         if isinstance(v, property):
-            return property(self.clone_fn(v.fget) if v.fget else None,
-                            self.clone_fn(v.fset) if v.fset else None,
-                            self.clone_fn(v.fdel) if v.fdel else None, v.__doc__)
+            return property(self.clone_fn(v.fget, cell) if v.fget else None,
+                            self.clone_fn(v.fset, cell) if v.fset else None,
+                            self.clone_fn(v.fdel, cell) if v.fdel else None, v.__doc__)
         if isinstance(v, classmethod):
-            return classmethod(self.clone_fn(v.__func__))
+            return classmethod(self.clone_fn(v.__func__, cell))
         if isinstance(v, staticmethod):
-            return staticmethod(self.clone_fn(v.__func__))
+            return staticmethod(self.clone_fn(v.__func__, cell))
         if type(v).__name__ == "UncachedAccessor":
             acc = getattr(v, "_accessor", None)
             if isinstance(acc, type) and _is_ux(acc):
@@ -243,12 +248,14 @@ class World:
             else:
                 bases.append(b)
         d = {}
+        cell = types.CellType()
         for k, v in c.__dict__.items():
             if k in ("__dict__", "__weakref__", "__slots__") or isinstance(v, types.MemberDescriptorType):
                 continue
-            d[k] = self._clone_member(v)
+            d[k] = self._clone_member(v, cell)
         new = type(c.__name__, tuple(bases), d)
         new.__module__ = c.__module__
+        cell.cell_contents = new
         return new
 
 
@@ -271,6 +278,9 @@ def _const_eq(a, b):
             return a.keys() == b.keys() and all(_const_eq(a[k], b[k]) for k in a)
         if isinstance(a, (list, tuple)):
             return len(a) == len(b) and all(_const_eq(x, y) for x, y in zip(a, b))
+        import numpy as _np
+        if isinstance(a, _np.ndarray):
+            return a.shape == b.shape and a.dtype == b.dtype and bool(_np.array_equal(a, b, equal_nan=True))
         r = a == b
         return r is True or (not isinstance(r, bool) and bool(r))
     except Exception:
